@@ -314,3 +314,32 @@ Example nan_compares_equal_to_everything :
   binary_op KLt (VNum NaN) (VNum d_1) = Ok (VBool false) /\ binary_op KLe (VNum NaN) (VNum d_1) = Ok (VBool true) /\
   binary_op KGe (VNum NaN) (VNum d_1) = Ok (VBool true).
 Proof. vm_compute. auto 10. Qed.
+
+(* ---------- Go integers that were not normalised (below a member, inside an array): == and === compare the
+   Go interface values, which are equal only when the dynamic TYPES are identical - uint(5) and uint64(5) differ ---------- *)
+Lemma gokind_eqb_eq k k' : gokind_eqb k k' = true <-> k = k'.
+Proof. split; [destruct k, k'; intros H; try reflexivity; discriminate H | intros ->; destruct k'; reflexivity]. Qed.
+
+Lemma goint_strict_eq k k' x y :
+  binary_op KEqEqEq (VGoInt k x) (VGoInt k' y) = Ok (VBool ((x =? y) && gokind_eqb k k')).
+Proof. cbv [binary_op]. cbn. destruct ((x =? y) && gokind_eqb k k'); reflexivity. Qed.
+
+Lemma goint_loose_eq k k' x y :
+  binary_op KEqEq (VGoInt k x) (VGoInt k' y) = Ok (VBool ((x =? y) && gokind_eqb k k')).
+Proof. reflexivity. Qed.
+
+Theorem goint_eq_iff k k' x y :
+  binary_op KEqEq (VGoInt k x) (VGoInt k' y) = Ok (VBool true) <-> (x = y /\ k = k').
+Proof.
+  rewrite goint_loose_eq. split.
+  - intros H. injection H as H. apply andb_true_iff in H. destruct H as [H1 H2].
+    apply Z.eqb_eq in H1. apply gokind_eqb_eq in H2. auto.
+  - intros [-> ->]. rewrite Z.eqb_refl. replace (gokind_eqb k' k') with true by (symmetry; apply gokind_eqb_eq; reflexivity). reflexivity.
+Qed.
+
+Example goint_eq_examples :
+  binary_op KEqEq (VGoInt GUint 5) (VGoInt GUint64 5) = Ok (VBool false) /\
+  binary_op KEqEqEq (VGoInt GInt8 5) (VGoInt GInt16 5) = Ok (VBool false) /\
+  binary_op KEqEq (VGoInt GUint8 5) (VGoInt GUint8 5) = Ok (VBool true) /\
+  binary_op KNe (VGoInt GUint 5) (VGoInt GUint64 5) = Ok (VBool true).
+Proof. vm_compute. auto. Qed.
